@@ -406,8 +406,14 @@ def branch_facts(tree, if_branch):
         raise Unsupported("if and IfExp tests are translated differently")
     boolean = t1 == "_handle_test"
     if boolean:
-        ht = ast.unparse(_fn(tree, "_handle_test"))
-        if "raise" not in ht or "not isinstance(condition, sympy.Symbol)" not in ht or "Boolean" not in ht:
+        htf = _fn(tree, "_handle_test")
+        ht = ast.unparse(htf)
+        # the local the translated test is kept in may have any name
+        loc = next((n.targets[0].id for n in htf.body if isinstance(n, ast.Assign) and len(n.targets) == 1
+                    and isinstance(n.targets[0], ast.Name) and isinstance(n.value, ast.Call)
+                    and _is_name(n.value.func, "_handle_expr")), None)
+        if (loc is None or "raise" not in ht or f"not isinstance({loc}, sympy.Symbol)" not in ht
+                or f"isinstance({loc}, sympy.logic.boolalg.Boolean)" not in ht or f"isinstance({loc}, bool)" not in ht):
             raise Unsupported("_handle_test: shape")
     return copies, checked, boolean, imports_copied
 
